@@ -319,9 +319,21 @@ class MafRecord(MutableMapping, LocatableByAllele):
                 )
             else:
                 # add any validation errors from the column itself.
-                self.validation_errors.extend(
-                    column.validate(reset_errors=reset_errors, scheme=scheme)  # type: ignore
-                )
+                column_errors = column.validate(reset_errors=reset_errors, scheme=scheme)  # type: ignore
+                self.validation_errors.extend(column_errors)  # type: ignore
+                # when validating against a scheme (to write the record), the
+                # text of a valid column must be a single field: no column or
+                # line separator in it
+                if scheme and not column_errors:
+                    text = str(column)
+                    if any(sep in text for sep in (MafRecord.ColumnSeparator, "\n", "\r")):
+                        add_errors(
+                            MafValidationError(
+                                MafValidationErrorType.RECORD_COLUMN_WRONG_FORMAT,
+                                f"The text of column '{i+1}' with name '{column.key}' contains a column or line separator",
+                                line_number=self.__line_number,
+                            )
+                        )
 
         # if we did not find any None columns, then do a bunch of internal
         #  self-consistency checking.
